@@ -44,13 +44,20 @@ def _is_boolish(e):
 
 
 FLAG_CALLS = ("isclose", "isnan", "isfinite", "isinf", "isreal", "logical_and", "logical_or", "logical_not", "logical_xor", "greater", "less", "equal", "not_equal",
-              "greater_equal", "less_equal", "any", "all", "is_versor", "is_pure", "is_real", "is_identity", "isin", "astype")
+              "greater_equal", "less_equal", "any", "all", "is_versor", "is_pure", "is_real", "is_identity", "isin", "astype", "isinstance", "issubclass", "callable",
+              "hasattr", "startswith", "endswith", "issubdtype", "isscalar", "iscomplexobj", "isrealobj", "array_equal", "allclose")
 
 
 def _flag_valued(e):
-    """an expression that yields truth flags: a comparison, a boolean combination, or one of NumPy's predicate functions"""
+    """an expression that yields truth flags: a comparison, a boolean combination, one of NumPy's predicate functions, or a list / array / comprehension of such"""
     if isinstance(e, (ast.Compare, ast.BoolOp)):
         return True
+    if isinstance(e, (ast.List, ast.Tuple)) and e.elts:
+        return all(_flag_valued(x) for x in e.elts)
+    if isinstance(e, (ast.ListComp, ast.GeneratorExp)):
+        return _flag_valued(e.elt)
+    if isinstance(e, ast.Call) and _last(e) in ("array", "asarray", "list", "tuple", "fromiter") and e.args:
+        return _flag_valued(e.args[0])
     if isinstance(e, ast.UnaryOp) and isinstance(e.op, (ast.Not, ast.Invert)):
         return True
     if isinstance(e, ast.BinOp) and isinstance(e.op, (ast.BitAnd, ast.BitOr, ast.BitXor)):
@@ -153,6 +160,7 @@ def norm_axis(chk, prog, files):
     n = 0
     for f in _funcs(prog, files):
         txt = ast.unparse(f.node)
+        params = set(_params(f))
         rowwise = ".shape[-1]" in txt or ".shape[1]" in txt or "ndim" in txt
         for c in _own_nodes(f.node):
             if isinstance(c, ast.Call) and _last(c) == "norm" and c.args:
@@ -160,7 +168,20 @@ def norm_axis(chk, prog, files):
                 if ax is None:
                     continue
                 n += 1
-                if isinstance(ax, ast.Constant) and ax.value == 0 and rowwise and isinstance(c.args[0], ast.Name):
+                arg0 = c.args[0]
+                is_input = False
+                if isinstance(arg0, ast.Name):
+                    stands_for = set()
+                    if arg0.id in params:
+                        stands_for.add(arg0.id)
+                    else:        # for name, item in zip([...], [acc, mag]): the loop variable stands for the parameters
+                        for lp in _own_nodes(f.node):
+                            if isinstance(lp, ast.For) and any(isinstance(x, ast.Name) and x.id == arg0.id for x in ast.walk(lp.target)):
+                                stands_for |= {x.id for x in ast.walk(lp.iter) if isinstance(x, ast.Name) and x.id in params}
+                    names_ = stands_for | ({arg0.id} if stands_for else set())
+                    is_input = any(isinstance(x, ast.Subscript) and isinstance(x.value, ast.Attribute) and x.value.attr == "shape" and ast.unparse(x.value.value) in names_
+                                   and ast.unparse(x.slice) in ("-1", "1") for x in _own_nodes(f.node))
+                if isinstance(ax, ast.Constant) and ax.value == 0 and rowwise and is_input:
                     chk.finding("NORM-AXIS", f.module.rel, f.qname, "%s" % ast.unparse(c)[:60],
                                 "`%s` takes the norm along axis 0: for an N-by-3 array of row samples that is the norm of each COLUMN (all x components, all y ...), not of each "
                                 "sample -- a recording whose x component is zero throughout has a zero column although no sample is null; the sample norm is axis=-1"
